@@ -111,13 +111,10 @@ void exit(int status) { G.exited = 1; G.exit_status = status; __CPROVER_assume(0
  * (own copies: this unit does not include libc_stubs.h; CBMC's built-in fprintf/printf models cost
  *  ~30 s of symbolic execution PER CALL here, the drivers print on every path) */
 #include <stdarg.h>
-/* "reports a diagnostic": with GATE_COUNT_STDERR (driver harnesses) a message to stderr sets the ghost __verif_stderr_msg */
-extern int __verif_stderr_msg;
-#ifdef GATE_COUNT_STDERR
-int fprintf(FILE *f, const char *fmt, ...) { (void)fmt; if (f == stderr) __verif_stderr_msg = 1; return nondet_int(); }
-#else
+/* NOTE: a variadic stub must not WRITE anything (not even a ghost): DFCC appends its write-set parameter after the
+ * named parameters, where the variable arguments of the call sit, so the stub would check its write against a garbage
+ * write set.  "A diagnostic is reported" can therefore not be observed through fprintf; it is not claimed. */
 int fprintf(FILE *f, const char *fmt, ...) { (void)f; (void)fmt; return nondet_int(); }
-#endif
 int printf(const char *fmt, ...) { (void)fmt; return nondet_int(); }
 int snprintf(char *s, size_t n, const char *fmt, ...) { (void)s; (void)n; (void)fmt; return nondet_int(); }
 int fputs(const char *s, FILE *f) { (void)s; (void)f; return nondet_int(); }
@@ -253,10 +250,10 @@ void vm_ffi_set_env(Environment *env) { (void)env; }
  * non-zero status, nothing written, nothing executed, no C compiler run. */
 int virt_main(int argc, char **argv)
 __CPROVER_requires(argc >= 1 && argc <= 4096 && __CPROVER_is_fresh(argv, ((size_t)argc + 1) * sizeof(char *)))
-__CPROVER_requires(GATE_INIT && __verif_stderr_msg == 0)
-__CPROVER_assigns(G, __verif_stderr_msg)
+__CPROVER_requires(GATE_INIT)
+__CPROVER_assigns(G)
 __CPROVER_ensures((G.lex_failed || G.parse_failed || G.import_failed || G.tc_failed || G.cg_failed) ==>
-                  (__CPROVER_return_value != 0 && !G.artifact_written && !G.executed && !G.cc_invoked && __verif_stderr_msg))
+                  (__CPROVER_return_value != 0 && !G.artifact_written && !G.executed && !G.cc_invoked))
 /* and the type checker really is consulted on every path that writes or runs something */
 __CPROVER_ensures((G.artifact_written || G.executed || G.cc_invoked) ==> (G.tc_calls == 1 && !G.tc_failed))
 /* C10.exit.virt (reference): the status after --run */
